@@ -51,7 +51,7 @@ var MutationKinds = []string{
 	"empty-object", "empty-interface", "empty-enum", "empty-input",
 	// R7 directive uses
 	"dir-wrong-location-type", "dir-wrong-location-enumvalue", "dir-wrong-location-field", "dir-wrong-location-arg", "dir-wrong-location-inputfield",
-	"dir-unknown-arg-type", "dir-unknown-arg-field", "dir-uncoercible-arg-type", "dir-uncoercible-arg-field", "dir-uncoercible-arg-enumvalue", "dir-uncoercible-arg-null", "dir-unknown-arg-noargs",
+	"dir-unknown-arg-type", "dir-unknown-arg-field", "dir-uncoercible-arg-type", "dir-uncoercible-arg-field", "dir-uncoercible-arg-enumvalue", "dir-uncoercible-arg-null", "dir-uncoercible-arg-input-field", "dir-unknown-arg-noargs",
 	// R8 directive definition cycles
 	"dir-cycle-self", "dir-cycle-two", "dir-cycle-lasso", "ref-directive-named-like-type", "schema-ext-dir-no-roots", "iface-shared-field-second-unsatisfied",
 }
@@ -611,6 +611,20 @@ func Mutate(t *rapid.T, base *hx.Schema, kind string) (s *hx.Schema, m Mutation,
 		}
 		td.Dirs = append(td.Dirs, du)
 		m.Names, m.Position = []string{"mut", td.Name}, "type:"+td.Kind
+	case "dir-uncoercible-arg-input-field":
+		// the value of a directive argument is an input object that lacks a required member (the
+		// member may well be declared in an extend block, in a load of its own)
+		s.Types = append(s.Types, &hx.TypeDef{Kind: hx.KInput, Name: "MutIn", Inputs: []*hx.Arg{{Name: "a", Type: hx.Named("Int")}, {Name: "need", Type: hx.Named("Int").NN()}}})
+		s.Dirs = append(s.Dirs, &hx.DirDef{Name: "mut", On: []string{"OBJECT", "INTERFACE", "UNION", "ENUM", "INPUT_OBJECT", "SCALAR"}, Args: []*hx.Arg{{Name: "o", Type: hx.Named("MutIn")}}})
+		var sites []*hx.TypeDef
+		for _, td := range s.Types {
+			if td.Name != "MutIn" {
+				sites = append(sites, td)
+			}
+		}
+		td := sites[pick(len(sites), "site")]
+		td.Dirs = append(td.Dirs, hx.DirUse{Name: "mut", Args: []hx.KV{{Key: "o", V: []hx.Val{hx.Map(), hx.Map(hx.KV{Key: "a", V: hx.I64(1)})}[pick(2, "value")]}}})
+		m.Names, m.Position = []string{"mut", td.Name, "need", "MutIn"}, "type:"+td.Kind
 	case "dir-unknown-arg-noargs":
 		// a directive that declares no argument at all, applied with one
 		s.Dirs = append(s.Dirs, &hx.DirDef{Name: "mut", On: []string{"OBJECT", "INTERFACE", "UNION", "ENUM", "INPUT_OBJECT", "SCALAR"}})
